@@ -406,7 +406,7 @@ func c06Gen(r *Rng, n int) []string {
 		}
 		if r.P(6) {
 			// white space that is Unicode space but not JSON white space
-			t = r.Pick([]string{"\v", "\f", "\u00a0", "\u0085", "\u2028", "\u3000", " \f "}) + t
+			t = r.Pick([]string{"\v", "\f", "\u00a0", "\u0085", "\u2028", "\u3000", " \f ", "\xef\xbb\xbf", "\ufeff ", "\xff\xfe"}) + t
 		}
 		ops = append(ops, "jdec "+encStr(t))
 		if r.P(50) {
